@@ -305,6 +305,45 @@ def check_drivers(F, res):
                         'entry of a sequence (index == 0), otherwise resumed sequences are reported again')
 
 
+def subst_term(t, old, new):
+    if t == old:
+        return new
+    if isinstance(t, tuple):
+        return tuple(subst_term(x, old, new) for x in t)
+    return t
+
+
+def iter_items(x):
+    """the items, in order, that an iterator term yields when that is known exactly: Options (one or no item), chains of
+    those, views (into_iter / iter / copied / cloned / by_ref), and element-wise maps over them; None when unknown"""
+    while isinstance(x, tuple) and x and x[0] == 'ok':
+        x = x[1]
+    if not isinstance(x, tuple) or not x:
+        return None
+    if x[0] == 'ctor' and x[2] == 'Some' and x[3]:
+        return [x[3][0][1]]
+    if x[0] == 'ctor' and x[2] == 'None':
+        return []
+    if x[0] == 'list':
+        return list(x[1])
+    if x[0] == 'seq':
+        src = iter_items(x[1])
+        if src is None:
+            return None
+        return [subst_term(x[2], ('elem', x[1]), it) for it in src]
+    if x[0] == 'call' and x[2]:
+        last = x[1].split('::')[-1]
+        if last == 'chain' and len(x[2]) == 2:
+            l, r = iter_items(x[2][0]), iter_items(x[2][1])
+            return None if l is None or r is None else l + r
+        if last in ('into_iter', 'iter', 'copied', 'cloned', 'by_ref') and len(x[2]) == 1:
+            return iter_items(x[2][0])
+        if last == 'rev' and len(x[2]) == 1:
+            its = iter_items(x[2][0])
+            return None if its is None else list(reversed(its))
+    return None
+
+
 def recursion_of(F, drv):
     """a call path drv -> ... -> drv through functions of the driver's own file (MIR, resolved callees), or None"""
     from mirinline import callee_of
@@ -402,10 +441,9 @@ def check_driver_worlds(F, res):
                 elif c == 'extend' and len(e['args']) == 2:
                     # extending the stack with an Option: one push when it is Some, nothing when it is None
                     x = e['args'][1]
-                    if isinstance(x, tuple) and x[0] == 'ctor' and x[2] == 'Some':
-                        pushes.append(show(x[3][0][1]))
-                    elif x == ('ctor', 'std::option::Option', 'None', ()):
-                        pass
+                    its = iter_items(x)
+                    if its is not None:
+                        pushes.extend(show(i) for i in its)
                     else:
                         pushes.append('extend(%s)' % show(x))
             want = {'Block': ['.Block.0.seq'], 'Loop': ['.Loop.0.seq'], 'IfElse': ['.IfElse.0.alternative', '.IfElse.0.consequent']}
@@ -505,8 +543,8 @@ def check_used_visitor(F, res):
     """UsedVisitor overrides the id hook of every kind tracked by Used"""
     from r_edges import used_kinds
     kinds = used_kinds(F) or {}
-    impl = [p for p in F.hir if p.startswith("<passes::used::UsedVisitor<'_> as ir::Visitor<'expr>>::")
-            or (p.startswith('<passes::used::UsedVisitor') and ' as ir::Visitor' in p)]
+    from r_edges import gc_visitor_hooks
+    impl = gc_visitor_hooks(F)       # found by role (the Visitor impl next to Used::new), whatever the struct is called
     have = {hook_kind_of_impl(F, p) for p in impl}
     for k in sorted(kinds):
         short = k.split('::')[-1]
